@@ -84,7 +84,7 @@ class Coder:
         return 'K(%r, time, __old__.v)' % cid
 
 
-def build_api(ch, coder=None, order=None, transitions=None):
+def build_api(ch, coder=None, order=None, transitions=None, klass=None):
     """Build through add_state/add_transition.  ``order``: declaration order of states (parents
     first); ``transitions``: order of transition declarations.  Returns (statechart, tmap) where
     tmap maps id(Transition object) -> abstract id."""
@@ -99,7 +99,7 @@ def build_api(ch, coder=None, order=None, transitions=None):
             kw['initial'] = s['initial']
         elif k in ('shallow', 'deep'):
             kw['memory'] = s['memory']
-        o = KLASS[k](n, **kw)
+        o = (klass or KLASS).get(k, KLASS[k])(n, **kw)
         for kind, attr in (('pre', 'preconditions'), ('post', 'postconditions'), ('inv', 'invariants')):
             for cid in s['contracts'][kind]:
                 getattr(o, attr).append(coder.cond(ch, False, cid, kind))
@@ -342,3 +342,11 @@ def build_edited(ch, rnd, coder=None):
         return None
     sc.validate()
     return sc, tmap, done
+
+
+def build_roundtrip(ch, coder=None):
+    """API build, then export_to_yaml / import_from_yaml: the chart that is executed is the re-imported one."""
+    from sismic.io import export_to_yaml
+    sc, _ = build_api(ch, coder)
+    sc2 = import_from_yaml(export_to_yaml(sc))
+    return sc2, tmap_from_actions(ch, sc2, coder)
